@@ -8,8 +8,147 @@ from .c17 import native_binary, run_native
 
 FILTERS = []
 
+DSL = {"String": ("string", '"abc"'), "U64": ("u64", "7"), "I64": ("int", "-7"), "F64": ("float", "2.5"),
+       "Bool": ("bool", "true"), "Timestamp": ("datetime", '"2023-11-16T10:00:00Z"'), "Date": ("date", '"2023-11-16"')}
+
+
+def _fv(t):
+    import z3
+    seen, out, work = {}, {}, [t]
+    while work:
+        x = work.pop()
+        if x.get_id() in seen:
+            continue
+        seen[x.get_id()] = x
+        if z3.is_const(x) and x.decl().kind() == z3.Z3_OP_UNINTERPRETED:
+            out[str(x)] = x
+        work.extend(x.children())
+    return out
+
+
+def replay_type(ctx, type_dsl, value):
+    """STORE one event with a field of the given declared type, QUERY it from memory, FLUSH,
+    QUERY it from the segment, on the real engine; returns (differs, text)"""
+    import json
+    import shutil
+    import tempfile
+    from vlib import history
+    binary = native_binary(ctx.log)
+    if binary is None:
+        return False, "native replay program did not build"
+    root = tempfile.mkdtemp(prefix="verif-hist-")
+    try:
+        history.write_config(root, capacity=8, shards=1)
+        script = ('DEFINE ev FIELDS { "x": "%s" }; STORE ev FOR c1 PAYLOAD {"x": %s}; !sleep 150; QUERY ev; FLUSH; !wait; '
+                  '!sleep 400; QUERY ev' % (type_dsl, value))
+        rc, out, err = history.run_lifetime(binary, root, script)
+        rows = []
+        for _i, o in out:
+            if isinstance(o, str) and '"type":"batch"' in o:
+                for line in o.splitlines():
+                    try:
+                        j = json.loads(line)
+                    except ValueError:
+                        continue
+                    if j.get("type") == "batch":
+                        rows.append([r[-1] for r in j["rows"]])
+        if len(rows) < 2:
+            return False, f"could not read the field back (responses: {[o for _i, o in out][-2:]})"
+        text = f'field "x": "{type_dsl}" stored as {value}: QUERY before FLUSH returns {json.dumps(rows[0])}, after FLUSH {json.dumps(rows[-1])}'
+        return json.dumps(rows[0]) != json.dumps(rows[-1]), text
+    finally:
+        shutil.rmtree(root, ignore_errors=True)
+
+
+def type_mapping(ctx):
+    """the flush writer stores every declared field type - nullable or not - in the physical
+    column type the segment readers decode it with"""
+    import z3
+    b = Builder(ctx, "write-column_writer-{impl#0}-write_all-{closure#0}.", "ColumnWriter::write_all", {})
+    E, q = b.E, ctx.q
+    r = b.mk("B-2", "ColumnWriter::write_all chooses, for every declared field type and its nullable form, the physical column "
+                    "type that field_type_to_physical_type (the mapping the readers of a segment use) gives for it: integers, "
+                    "datetimes and dates as I64, u64 as U64, floats as F64, booleans as Bool - a nullable field is stored like "
+                    "the plain one, so a value read after FLUSH has the type it had before")
+    out = [b.results["B-2"]]
+    if not r:
+        return out
+    b2 = Builder(ctx, "zone-zone_cursor_loader-field_type_to_physical_type.", "field_type_to_physical_type", {})
+    ins = [e for e in oblig.events(E, r"PhysicalType>::insert$") if e.layer == 0]
+    if b2.E is None or not b2.E.returns or not oblig.need_anchor(r, ins, "types_by_key.insert(key, phys)"):
+        if r.status == "holds":
+            r.status = "inconclusive"
+            r.notes.append("field_type_to_physical_type not available")
+        return out
+    E2 = b2.E
+    rets = [(reach, E2.disc_term(env.get(0))) for (_n, reach, env) in E2.returns]
+    W = E.disc_term(ins[0].args[2]) if len(ins[0].args) > 2 else None
+    if W is None or any(t is None for _, t in rets):
+        r.status = "inconclusive"
+        r.notes.append("physical type values are not discriminant terms")
+        return out
+    R = rets[-1][1]
+    for reach, t in rets[:-1]:
+        R = z3.If(reach, t, R)
+    fw = _fv(W)
+    F = [v for n, v in fw.items() if re.search(r"disc\(MiniSchema::field_type#\d+:Some\.0\)$", n)]
+    I = [v for n, v in fw.items() if re.search(r"disc\(MiniSchema::field_type#\d+:Some\.0:Optional\.0\)$", n)]
+    A = z3.BitVec("disc(arg:field_type)", 64)
+    rec = [v for n, v in _fv(R).items() if n.startswith("disc(field_type_to_physical_type#")]
+    variants = [E.structs.variant_index(f"FieldType::{n}") for n in ("Optional", "Enum")]
+    if len(F) != 1 or len(I) != 1 or len(rec) > 1 or None in variants:
+        r.status = "inconclusive"
+        r.notes.append("field type discriminants not found in the writer's mapping")
+        return out
+    F, I = F[0], I[0]
+    OPT = variants[0]
+    dummy = z3.BitVecVal(0, 64)
+    R1 = lambda x: z3.substitute(R, (A, x), *([(rec[0], dummy)] if rec else []))
+    Rfull = z3.substitute(R, (A, F), *([(rec[0], R1(I))] if rec else []))
+    # the schema arm of the writer: the type is known and the field is not one of the fixed columns
+    ctxs = [ins[0].reach]
+    for n, v in fw.items():
+        if re.match(r"PartialEq::eq#\d+$", n) and z3.is_bool(v):
+            ctxs.append(z3.Not(v))
+        if re.match(r"disc\(SchemaRegistry::get#\d+\)$", n) or re.match(r"disc\(MiniSchema::field_type#\d+\)$", n):
+            ctxs.append(v == 1)
+    r.nontrivial = True
+    res, model = q.check(*ctxs, z3.ULT(F, 9), z3.ULT(I, 9), I != OPT, W != Rfull, domain=E.domain)
+    r.queries += 1
+    if res == z3.unsat:
+        return out
+    if res != z3.sat:
+        r.status = "inconclusive"
+        r.notes.append("solver returned unknown")
+        return out
+    names = E.structs.enum_names.get("FieldType") or []
+    phys = E.structs.enum_names.get("PhysicalType") or []
+    fv, iv = model.eval(F, model_completion=True).as_long(), model.eval(I, model_completion=True).as_long()
+    wv, rv = model.eval(W, model_completion=True).as_long(), model.eval(Rfull, model_completion=True).as_long()
+    nm = lambda i, l: l[i] if i < len(l) else str(i)
+    tname = nm(fv, names) if fv != OPT else f"{nm(iv, names)} | null"
+    r.status = "violated"
+    r.witness = {"what": f"a field declared `{tname}` is written as a {nm(wv, phys)} column but the segment readers decode that type as {nm(rv, phys)}",
+                 "span": f"{ins[0].span[0]}:{ins[0].span[1]}" if ins[0].span else None, "call": "ColumnWriter::write_all",
+                 "path": [], "model": {"field_type": tname, "writer": nm(wv, phys), "readers": nm(rv, phys)}}
+    base = nm(iv if fv == OPT else fv, names)
+    if base in DSL:
+        dsl = DSL[base][0] + (" | null" if fv == OPT else "")
+        differs, text = replay_type(ctx, dsl, DSL[base][1])
+        r.witness["native"] = text
+        if not differs:
+            r.status = "inconclusive"
+            r.notes.append("counterexample did not reproduce on the real engine: " + text)
+    else:
+        r.witness["native"] = "no native replay for this field type"
+    return out
+
 
 def obligations(ctx):
+    return string_cells(ctx) + type_mapping(ctx)
+
+
+def string_cells(ctx):
     b = Builder(ctx, "filter-condition_evaluator-{impl#0}-evaluate_zones_with_limit.",
                 "ConditionEvaluator::evaluate_zones_with_limit", {})
     E = b.E
